@@ -218,6 +218,20 @@ func jobsFor(prop, tier string) []*Job {
 					Bounds: bd + fmt.Sprintf("handler answers no/200/502/204/404 status with 0..2 writes of 0/1/3 bytes per attempt; response max in {unlimited,1,3,4}, mem in {1,2,3,7} (symbolic); POST/HEAD, declared/chunked; up to %d retries decided symbolically", retries)})
 			}
 		}
+	case "C18":
+		add(&Job{Name: "O1-expression-semantics", Pkg: "cbreaker", Harness: "VerifC18Expr", IncKind: "cvc5", TimeoutS: 120, Solvers: []string{"cvc5", "z3"},
+			Bounds: "operator table and function map captured from parseExpression; the six comparisons over NetworkErrorRatio / ResponseCodeRatio (float64, symbolic value and constant, IEEE semantics) and LatencyAtQuantileMS (int, symbolic), and/or of pairs of atoms and one nested expression"})
+		k := 2
+		if thorough {
+			k = 3
+		}
+		add(&Job{Name: fmt.Sprintf("O2-metrics/k=%d", k), Pkg: "memmetrics", Harness: "VerifC18Metrics", Grid: 1e9, Params: p("k", k, "t0span", 40), TimeoutS: 120, MergeBlind: true,
+			Merge: map[string]bool{"(*github.com/vulcand/oxy/v2/memmetrics.RollingCounter).cleanup": true, "(*github.com/vulcand/oxy/v2/memmetrics.RollingCounter).incBucketValue": true},
+			Bounds: fmt.Sprintf("%d Record calls with codes chosen symbolically from {200,404,500,502,504} at one instant (symbolic within a window covering every bucket residue), then the ratios and Reset", k)})
+		for part := 0; part < 4; part++ {
+			add(&Job{Name: fmt.Sprintf("O3-decision-and-effects/k=2,depth=2,part=%d", part), Pkg: "cbreaker", Harness: "VerifC05History", Params: p("k", 2, "depth", 2, "part", part, "parts", 4),
+				Bounds: "history harness of C05: evaluated exactly when the check period is over, trips iff the evaluated condition is true, trip resets the metrics once, on-tripped / on-standby effects run once per transition"})
+		}
 	}
 	return js
 }
